@@ -215,7 +215,28 @@ def run(ctx, rep):
     rep.ob("C15.order", "`f(a1, a2, ..)`: the arguments are compiled in list order (arguments.iter() -> flat_map(compile) -> collect, no reversal)",
            "ok" if okargs else "violated", "flat_map/map=%d collect=%d reversals=%d compile-in-closure=%s" % (len(fm), len(col), len(revs), comp_in_closure),
            ca.span, fn=ca.path, key="C15.order|call-arguments")
-    rep.floor("C15.emitted sequences read", n, 30)
+    n += statements_emit_their_expression(F, rep, "C15.once")
+    rep.floor("C15.emitted sequences read", n, 40)
+    # ---- parked values are not disturbed: every nested expression gets its own register ---------------------------------------------
+    # a binary operator parks its left value in the register it was handed (`store_fast depth`) while the right operand runs; if that same
+    # register is handed down to a sub-expression of the right operand, a nested operator parks there too and the outer value is lost.
+    bodies = [cd] + F.closures_of(cd)
+    n_rec = 0
+    for g in bodies:
+        for c in g.calls_to("compiler::ast::math_expr::compile_depth"):
+            if len(c.args) < 3:
+                continue
+            n_rec += 1
+            l = mir.op_local(c.args[2])
+            oc = rules.origin_calls(g, l, transparent=rules.TRANSPARENT) if l is not None else []
+            fresh = bool(oc) and all(x.matches(("compiler::ast::CompilationState::poll_temporary_register",)) for x in oc)
+            tp = rules.trace_paths(g, l, transparent=rules.TRANSPARENT) if l is not None else set()
+            own = any(o[0] == "arg" for o, _ in tp) or (g is not cd and not oc)
+            rep.ob("C15.undisturbed", "a nested expression is compiled with a fresh temporary register, never with the register its parent parks a value in",
+                   "ok" if fresh and not own else "violated",
+                   "the register handed down comes from %s" % ([mir.short(x.callee()) for x in oc] or sorted(str(o) for o, _ in tp)), c.span, fn=g.path,
+                   key="C15.undisturbed|compile_depth|#%d" % n_rec)
+    rep.floor("C15.recursive compile_depth calls", n_rec, 2)
 
 
 def _compile_whole(it, p, fid, fn, t, args):
@@ -232,3 +253,39 @@ def _compile_whole(it, p, fid, fn, t, args):
 def _callable_new(it, p, fid, fn, t, args):
     # Callable::new(arguments, load_instruction, self_register): keep the arguments' tag so that callable.compile() is code(<arguments>)
     return Opaque(seqgen.tag_of(it, p, args[0]).split(".")[0])
+
+
+def statements_emit_their_expression(F, rep, rule, only=None):
+    """Every statement kind lays down the code of its payload on every path (nothing the user wrote is compiled away): evaluated on
+    <Declaration as Compile>::compile with each variant and an opaque payload.  An expression statement is `<expr> void`."""
+    DECL = "compiler::ast::declaration::Declaration"
+    da = F.adt(DECL)
+    if da is None:
+        raise AnchorMissing(DECL)
+    dc = [f for f in F.crates["compiler"].fns if f.path == "<%s as compiler::ast::Compile>::compile" % DECL]
+    if len(dc) != 1:
+        raise AnchorMissing("impl Compile for Declaration")
+    dc = dc[0]
+    n = 0
+    for vi, v in enumerate(da["variants"]):
+        if only and v["name"] not in only:
+            continue
+        if len(v["fields"]) != 1:
+            continue
+        rows, ex = seqgen.sequences(F, dc, [Variant(DECL, vi, v["name"], [Opaque("lhs")]), Opaque("state")])
+        returned = [r for r in rows if r["kind"] == "return" and isinstance(r["value"], Variant) and r["value"].name == "Ok"]
+        seqs = [r["seq"] for r in returned]
+        if ex or not returned:
+            rep.ob(rule, "statement `%s`: emitted code" % v["name"], "undecided", "no sequence read (exhausted=%s)" % ex, dc.span, fn=dc.path,
+                   key="%s|statement|%s" % (rule, v["name"]))
+            continue
+        n += 1
+        bad = [show(sq) if sq is not None else "<unreadable>" for sq in seqs if sq is None or len(positions(sq, "lhs")) != 1]
+        extra = ""
+        if v["name"] == "Value":
+            bad += [show(sq) for sq in seqs if sq is not None and (len(sq) != 2 or sq[1][:2] != ("ins", "void"))]
+            extra = " (`<expr> void`)"
+        rep.ob(rule, "statement `%s` lays down its payload's code exactly once on every path%s" % (v["name"], extra), "violated" if bad else "ok",
+               "paths without it: %s" % sorted(set(bad))[:3] if bad else "emitted: %s" % show(seqs[0]), dc.span, fn=dc.path,
+               key="%s|statement|%s" % (rule, v["name"]))
+    return n
